@@ -39,12 +39,14 @@ def run(ctx):
     lib_kind.takeset_atomic(ctx, P)
     from . import lib_kind2
     lib_kind2.guard_nan(ctx, P)
+    lib_kind2.guard_seqlen(ctx, P)
     from . import lib_kind3
     lib_kind3.module_owner_refs(ctx, P)
     from . import lib_ref
     lib_ref.release(ctx, P)
     lib_ref.singletons(ctx, P)
     lib_ref.borrowed(ctx, P)
+    lib_kind2.alloc_err(ctx, P, lambda k, f: True, tus=["module"])
     lib_kind3.error_codes(ctx, P)
     lib_kind.dict_atomic(ctx, P)
     lib_stats.early_exits(ctx, P)
